@@ -56,6 +56,19 @@ func (p *LeafPool) Expr(t *rapid.T, o ExprOpts) model.Expr {
 		o.MaxArity = 4
 	}
 	switch rapid.IntRange(0, 19).Draw(t, "shape") {
+	case 2: // wide node: operand counts around typical buffer sizes
+		n := rapid.SampledFrom([]int{6, 7, 8, 9, 15, 16, 17, 31, 32, 33, 40}).Draw(t, "wide")
+		subs := make([]model.Expr, n)
+		for i := range subs {
+			subs[i] = p.Leaf(t, o)
+			if rapid.IntRange(0, 4).Draw(t, "widenot") == 0 {
+				subs[i] = model.Not(subs[i])
+			}
+		}
+		if rapid.Bool().Draw(t, "wideop") {
+			return model.And(subs...)
+		}
+		return model.Or(subs...)
 	case 0: // NOT chain
 		e := p.Leaf(t, o)
 		k := rapid.IntRange(1, 6).Draw(t, "nots")
@@ -65,7 +78,7 @@ func (p *LeafPool) Expr(t *rapid.T, o ExprOpts) model.Expr {
 		return e
 	case 1: // left-deep chain
 		e := p.Leaf(t, o)
-		k := rapid.IntRange(2, 40).Draw(t, "chain")
+		k := rapid.SampledFrom([]int{2, 3, 5, 8, 13, 21, 40, 60, 100}).Draw(t, "chain")
 		for i := 0; i < k; i++ {
 			l := p.Leaf(t, o)
 			if rapid.Bool().Draw(t, "cop") {
